@@ -15,6 +15,9 @@ from .common import Acc, relevant_mutations, outcome_sig
 
 PROP = 'C02'
 
+BFS = {'thorough': 4}          # depth of the explicit-state search over arbitrary action sequences (fbmc/bfs.py)
+BFS_CLAUSES = ('rollback.',)
+
 
 def spaces(tier):
     small = dict(paths=['a', 'd', 'd/x', 'd/y', 'd/e/z'], bf_modes=['ok', 'rb', 'ra'], sb_modes=['ok', 'rb'])
